@@ -30,12 +30,18 @@ Require TokL InvL St Loop.
 Theorem C04_escaped_text_is_brace_neutral : forall t d, TokL.runL (enc latex_table t) (TokL.LTxt, d) = (TokL.LTxt, d).
 Proof. exact TokL.latex_escape_textual. Qed.
 (* proved for every document of a sub-language, every world and every positive nesting fuel: text lines, .Bm, .Em, .Sm
-   (any arguments), argument-less .P and display blocks .Bd/.Ed nested to any depth, LaTeX fragment mode: all brace groups
-   of the output balance, none is closed before it is opened, and the compilation is panic-free *)
-Require FragBL.
-Theorem C04_blocks_balanced_partial : forall fuel wd main bs, Forall FragBL.in_frag bs ->
+   (any arguments), .P with or without a title, display blocks .Bd/.Ed nested to any depth, headers .Ch/.Pt/.Sh/.Ss and
+   .Tc with any arguments, LaTeX fragment mode: all brace groups of the output balance, none is closed before it is
+   opened, and the compilation is panic-free (Proofs/FragBL.v, Proofs/FragHL.v) *)
+Require FragHL.
+Theorem C04_headers_balanced_partial : forall fuel wd main bs, Forall FragHL.in_fragHL bs ->
   let s := snd (Loop.compile (S fuel) [108; 97; 116; 101; 120] (* the format name: latex *) 0 wd main bs) in
   St.panicked s = None /\
   TokL.runL (St.flat (St.wout s)) (TokL.LTxt, 0%nat) = (TokL.LTxt, 0%nat) /\ In (St.curfile s, St.flat (St.wout s)) (St.files s).
-Proof. exact FragBL.C04_blocks_balanced. Qed.
-Print Assumptions C04_blocks_balanced_partial.
+Proof. exact FragHL.C04_headers_balanced. Qed.
+Print Assumptions C04_headers_balanced_partial.
+(* inside processInlineMacros the same holds: the title handed back is brace-balanced *)
+Require InvIL.
+Theorem C04_inline_titles_balanced : forall a s, Exp.fmt s = Exp.FL -> St.asis s = false -> St.inl s = false -> InvL.markup_okL (St.mtags s) -> St.bf s = None -> St.has_cur s = true ->
+  forall d, TokL.runL (fst (Loop.pim a s)) (TokL.LTxt, d) = (TokL.LTxt, d).
+Proof. intros a s H1 H2 H3 H4 H5 H6. exact (proj1 (InvIL.pim_spec a s H1 H2 H3 H4 H5 H6)). Qed.
